@@ -46,6 +46,12 @@ func runC03(r *an.Run) {
 	relabel(r, "R1-comment-lines-never-reach-the-parsers", "R10-every-plus-line-reaches-the-plus-pattern")
 	c01SplitPatch(r)
 	relabel(r, "R9-minus-plus-split", "R10-every-plus-line-reaches-the-plus-pattern")
+	// a change is applied to a file whole or not at all: FileReplacer.Replace rewrites the sites in place one
+	// after the other and stops at the first it cannot build, so a file on which Replace failed holds some
+	// sites rewritten and other, equally admissible ones untouched — it must never be printed
+	c06MatchedFlagAs(r, "R11-a-half-applied-change-is-never-emitted")
+	c09APIFailure(r)
+	relabel(r, "R4-failure-leaves-file-untouched", "R11-a-half-applied-change-is-never-emitted")
 }
 
 func c03Siblings(r *an.Run) {
